@@ -4,6 +4,8 @@ import RpmVerif.Lemmas.RpmValid
 import RpmVerif.Model.Accessors
 import RpmVerif.Lemmas.WithFile
 import RpmVerif.Spec.FileOptions
+import RpmVerif.Lemmas.ValidCalls
+import RpmVerif.Lemmas.ValidWeight
 /-!
 # C06 — everything given to the builder is read back unchanged
 
@@ -1026,5 +1028,230 @@ example : ∃ f, Source.readable srcA = .readable f ∧
     getU32Array (hdrOf demoCtxBare) IndexTag.RPMTAG_FILEMTIMES = .ok [clampMtime demoCtxBare.c.sourceDate f.mtime.secs.toNat] ∧
     getStringArray (hdrOf demoCtxBare) IndexTag.RPMTAG_FILECAPS = .err "notfound" :=
   defaults_readback demoCtxBare _ _ _ _ _ demo_state_bare rfl
+
+
+/-! ## the builder state as a function of the CALLS (audit items a6 / c18), and `Valid` from the inputs (a4 / c17)
+
+`Bld.Cfg.new` / `Bld.MetaSetter.apply` (Model/Builder.lean) are `PackageBuilder::new` and the setters of `impl PackageBuilder`;
+`Build.run` (Model/PrepareData.lean) interleaves them with `with_file`. The `readback_*` theorems above speak about the builder
+STATE; the theorems here tie the state to the calls, so that "every value supplied to the builder" means the arguments. -/
+section calls
+open RpmVerif.Build
+
+/-- **the table scraped from `impl PackageBuilder` is what the model implements**: same setters, same order, each writing the
+same field in the same way (assign / `Some(..)` / `push`); a setter that is added, renamed or re-pointed breaks this theorem -/
+theorem builder_setters_standard : Gen.builderSetters = modelledSetterRows := by decide
+
+/-- … and `PackageBuilder::new` stores its five arguments, `release = "1"`, `epoch = 0`, everything else `Default::default()`;
+the `Scriptlet` constructors have the shape the model gives them -/
+theorem builder_new_standard : Gen.builderNewArgs = ["name", "version", "license", "arch", "summary"] ∧
+    Gen.builderNewArgsAssigned = true ∧ Gen.builderNewRestDefault = true ∧ Gen.builderNewOtherLiterals = [] ∧
+    Gen.scriptletCtorsStandard = true ∧ Gen.builderNewRelease = [49] ∧ Gen.builderNewEpoch = 0 := by decide
+
+/-- **`Option<String>` setters: the argument of the last call is what the state holds** -/
+theorem opt_setters_last_call_wins : ∀ p ∈ optStrSetters, ∀ (c : Cfg) (pre post : List MetaSetter) (x : Bytes),
+    (∀ t ∈ post, ∀ y, t ≠ p.1 y) → p.2 (c.applyAll (pre ++ p.1 x :: post)) = some x := opt_setter_last_wins
+
+/-- a setter that is never called leaves `None` -/
+theorem opt_setters_never_called : ∀ p ∈ optStrSetters, ∀ (c : Cfg) (ss : List MetaSetter),
+    (∀ t ∈ ss, ∀ y, t ≠ p.1 y) → p.2 (c.applyAll ss) = p.2 c := opt_setter_never
+
+/-- **scriptlet setters: the last call wins** (`k` = position in `Bld.scriptSetterNames`) -/
+theorem script_setters_last_call_wins {k : Nat} {π : Cfg → Option Bld.Scriptlet} (hk : scriptFields[k]? = some π) (c : Cfg)
+    (pre post : List MetaSetter) (s : Bld.Scriptlet) (h : ∀ t ∈ post, ∀ s', t ≠ .script k s') :
+    π (c.applyAll (pre ++ .script k s :: post)) = some s := script_setter_last_wins hk c pre post s h
+
+/-- **dependency setters accumulate in call order** (`k` = position in `Bld.depSetterNames`) -/
+theorem dep_setters_accumulate_in_order {k : Nat} {π : Cfg → List Dep} (hk : depFields[k]? = some π) (c : Cfg)
+    (ss : List MetaSetter) : π (c.applyAll ss) = π c ++ depCalls k ss := dep_setters_accumulate hk c ss
+
+theorem changelog_accumulates_in_order (c : Cfg) (ss : List MetaSetter) :
+    (c.applyAll ss).changelog = c.changelog ++ ss.filterMap (fun | .changelog n e t => some (n, e, t) | _ => none) :=
+  changelog_accumulates c ss
+
+/-- `epoch`, `release`, `source_date`, `compression`: the last call wins -/
+theorem plain_setters_last_call_wins (c : Cfg) (pre post : List MetaSetter) :
+    (∀ n, (∀ t ∈ post, ∀ m, t ≠ .epoch m) → (c.applyAll (pre ++ .epoch n :: post)).epoch = n) ∧
+    (∀ x, (∀ t ∈ post, ∀ y, t ≠ .release y) → (c.applyAll (pre ++ .release x :: post)).release = x) ∧
+    (∀ n, (∀ t ∈ post, ∀ m, t ≠ .sourceDate m) → (c.applyAll (pre ++ .sourceDate n :: post)).sourceDate = some n) ∧
+    (∀ k, (∀ t ∈ post, ∀ m, t ≠ .compression m) → (c.applyAll (pre ++ .compression k :: post)).compression = k) :=
+  plain_setters_last_wins c pre post
+
+/-- no setter touches the five arguments of `new`, the files, the directories -/
+theorem setters_keep_new_args (c : Cfg) (ss : List MetaSetter) :
+    (c.applyAll ss).name = c.name ∧ (c.applyAll ss).version = c.version ∧ (c.applyAll ss).license = c.license ∧
+    (c.applyAll ss).arch = c.arch ∧ (c.applyAll ss).summary = c.summary ∧ (c.applyAll ss).files = c.files ∧
+    (c.applyAll ss).directories = c.directories ∧ (c.applyAll ss).largeFileThreshold = c.largeFileThreshold :=
+  new_args_kept c ss
+
+/-- **the state after a call sequence that interleaves setters and `with_file`**: the metadata part is `Cfg.applyAll` of the
+setter calls, the file part `WithFile.buildState` of the `with_file` calls -/
+theorem state_of_calls {sha256hex : Bytes → Bytes} {valid : Bytes → Bool} {calls : List Build.Call} {s s' : St}
+    (h : run sha256hex valid calls s = .ok s') :
+    s'.base = s.base.applyAll (calls.filterMap metaOf) ∧
+    WithFile.buildState sha256hex valid (calls.filterMap fileOf) ⟨s.fes.map (·.1), s.dirs⟩ = .ok ⟨s'.fes.map (·.1), s'.dirs⟩ :=
+  ⟨run_base h, run_files h⟩
+
+/-! ### from the calls to the accessors -/
+
+/-- **`url(u)` … read back**: whatever else is called before, and whatever OTHER setters after, `get_url` of the built header
+returns the argument of the last `url` call -/
+theorem url_of_calls (c : Cfg) (pre post : List MetaSetter) (u : Bytes) (h : ∀ t ∈ post, ∀ y, t ≠ .url y)
+    (bt : Nat) (p a : Bytes) :
+    getString (hdrOf ⟨c.applyAll (pre ++ .url u :: post), bt, p, a⟩) IndexTag.RPMTAG_URL = .ok u := by
+  have := opt_setter_last_wins (.url, (·.url)) (by simp [optStrSetters]) c pre post u h
+  simp only at this
+  rw [readback_url, this]
+
+/-- **a fresh builder reads back the defaults of `new`**: release "1", epoch 0, no optional tag -/
+theorem new_defaults_readback (name version license arch summary : Bytes) (dc : Bld.Comp) (bt : Nat) (p a : Bytes) :
+    let x : Ctx := ⟨Cfg.new name version license arch summary dc, bt, p, a⟩
+    getString (hdrOf x) IndexTag.RPMTAG_RELEASE = .ok [49] ∧ getU32 (hdrOf x) IndexTag.RPMTAG_EPOCH = .ok 0 ∧
+    getString (hdrOf x) IndexTag.RPMTAG_NAME = .ok name ∧ getString (hdrOf x) IndexTag.RPMTAG_URL = .err "notfound" ∧
+    getString (hdrOf x) IndexTag.RPMTAG_VENDOR = .err "notfound" ∧ getString (hdrOf x) IndexTag.RPMTAG_BUILDHOST = .err "notfound" := by
+  intro x
+  exact ⟨readback_release x, readback_epoch x, readback_name x, readback_url x, readback_vendor x, readback_buildhost x⟩
+
+/-- **`provides(d)` calls read back in call order**, followed by the two the library adds -/
+theorem provides_of_calls (c : Cfg) (ss : List MetaSetter) (bt : Nat) (p a : Bytes) :
+    getDependencies (hdrOf (Ctx.mk (c.applyAll ss) bt p a)) IndexTag.RPMTAG_PROVIDENAME IndexTag.RPMTAG_PROVIDEFLAGS IndexTag.RPMTAG_PROVIDEVERSION =
+      .ok ((allProvides (c.applyAll ss)).map Dep.toAcc) ∧
+    (c.applyAll ss).provides = c.provides ++ depCalls 0 ss :=
+  ⟨(readback_provides (Ctx.mk (c.applyAll ss) bt p a)).1, dep_setters_accumulate (k := 0) (π := (·.provides)) rfl c ss⟩
+
+
+/-! ### `Valid` from the inputs -/
+
+/-- **`Valid` from the builder state**: NUL-free Rust strings, numbers of the width of their Rust types, a clamped build time
+and hex digests, and `102 * (2 * weight + 1008 + |digests|) + 16 < 2^31` — with `cfgWeight` the total length of the strings the
+state holds plus a constant per file / dependency / changelog entry — give a header `from_entries` lays out canonically below
+2 GiB. (102 = number of slots; every single record is at most `slotBound x` long, `Bld.slots_ok`.) -/
+theorem valid_of_cfg (x : Ctx) (ok : CfgOk x.c) (hbt : x.bt < 4294967296) (hp : RustStr x.payloadShaHex)
+    (ha : RustStr x.archiveShaHex) (hsize : 102 * (slotBound x + 8) + 16 < 2147483648) : Valid x :=
+  recsOk_of_cfg ok hbt hp ha (by omega) hsize
+
+/-- **`Valid` from the inputs of the builder** (audit items c17 / a4): `PackageBuilder::new` and ANY sequence of setter and
+`with_file` calls whose string arguments are NUL-free (they are valid UTF-8 by their Rust type: `RustStr`) and whose numbers
+have the width of their Rust type (`Call.ArgsOk`) — whatever the source files are, whatever `SystemTime` / `DateTime` values
+are passed (those calls store a `u32` or do not return) — leave a state whose header is `Valid`, for every clock reading that
+is a `u32` and the digests `hex::encode(Sha256(..))` of any payload / archive, as long as the strings held are not too long
+(`cfgWeight` of the state below 10.5 MB) and the contents sum below 2^64 bytes. -/
+theorem valid_of_inputs (sha256 : Bytes → Bytes) (valid : Bytes → Bool) (name version license arch summary : Bytes)
+    (dc : Bld.Comp) (calls : List Build.Call) (s : St)
+    (hnew : RustStr name ∧ RustStr version ∧ RustStr license ∧ RustStr arch ∧ RustStr summary)
+    (hcalls : ∀ c ∈ calls, c.ArgsOk)
+    (hrun : run (Sign.shaHex sha256) valid calls (St.new name version license arch summary dc) = .ok s)
+    (now : Nat) (hnow : now < 4294967296) (payload archive : Bytes) (hdig : ∀ b, (sha256 b).length ≤ 32)
+    (hmem : (s.fes.map (·.2.length)).sum < 18446744073709551616)
+    (hsize : cfgWeight s.cfg < 10500000) :
+    Valid (mkCtx s.cfg now (Sign.shaHex sha256 payload) (Sign.shaHex sha256 archive)) := by
+  have hsha : ∀ b, RustStr (Sign.shaHex sha256 b) := fun b => rustStr_ascii _ (Sign.hexLower_ascii _)
+  have hlen : ∀ b, (Sign.shaHex sha256 b).length = 2 * (sha256 b).length := fun b => Build.hexLower_length _
+  obtain ⟨h1, h2, h3, h4, h5⟩ := hnew
+  have stok : StOk s := StOk.run (stOk_new dc h1 h2 h3 h4 h5) hsha hcalls hrun
+  obtain ⟨inv, _⟩ := (inv_new name version license arch summary dc).run hrun
+  have htot : combinedSize s.cfg < 18446744073709551616 := by
+    have : combinedSize s.cfg = (s.fes.map (·.2.length)).sum := by
+      simp only [combinedSize, St.cfg, List.map_map]
+      exact congrArg List.sum (List.map_congr_left (fun p hp => inv.size p hp))
+    omega
+  have ok := stok.cfgOk htot
+  have hbt : (mkCtx s.cfg now (Sign.shaHex sha256 payload) (Sign.shaHex sha256 archive)).bt < 4294967296 := by
+    show clampNow s.cfg.sourceDate now < 4294967296
+    unfold clampNow
+    cases hsd : s.cfg.sourceDate with
+    | none => exact hnow
+    | some t => simp only; split; exact ok.sourceDate t hsd; exact hnow
+  refine valid_of_cfg _ ok hbt (hsha payload) (hsha archive) ?_
+  have e1 := hlen payload; have e2 := hlen archive
+  have d1 := hdig payload; have d2 := hdig archive
+  have hb : slotBound (mkCtx s.cfg now (Sign.shaHex sha256 payload) (Sign.shaHex sha256 archive)) =
+      2 * cfgWeight s.cfg + (Sign.shaHex sha256 payload).length + (Sign.shaHex sha256 archive).length + 1000 := rfl
+  have hS : slotBound (mkCtx s.cfg now (Sign.shaHex sha256 payload) (Sign.shaHex sha256 archive)) ≤ 21001128 := by
+    rw [hb, e1, e2]; omega
+  generalize slotBound (mkCtx s.cfg now (Sign.shaHex sha256 payload) (Sign.shaHex sha256 archive)) = S at hS ⊢
+  omega
+
+
+
+/-- **`Valid` from the arguments alone** (the header-size bound in INPUT lengths): as `valid_of_inputs`, with the weight of the
+state replaced by what the caller wrote — the five strings of `new` and, per call, `Call.weight`: the strings of a metadata
+setter (+ 4 per dependency / changelog entry), for `with_file` twice the destination, the option strings and 128 — summing below
+10.5 MB. (A value that a later call overwrites still counts: the bound is on the calls, not on the state.) -/
+theorem valid_of_args (sha256 : Bytes → Bytes) (valid : Bytes → Bool) (name version license arch summary : Bytes)
+    (dc : Bld.Comp) (calls : List Build.Call) (s : St)
+    (hnew : RustStr name ∧ RustStr version ∧ RustStr license ∧ RustStr arch ∧ RustStr summary)
+    (hcalls : ∀ c ∈ calls, c.ArgsOk)
+    (hrun : run (Sign.shaHex sha256) valid calls (St.new name version license arch summary dc) = .ok s)
+    (now : Nat) (hnow : now < 4294967296) (payload archive : Bytes) (hdig : ∀ b, (sha256 b).length ≤ 32)
+    (hmem : (s.fes.map (·.2.length)).sum < 18446744073709551616)
+    (hsize : strW name + strW version + strW license + strW arch + strW summary + 2 + (calls.map Build.Call.weight).sum < 10500000) :
+    Valid (mkCtx s.cfg now (Sign.shaHex sha256 payload) (Sign.shaHex sha256 archive)) := by
+  refine valid_of_inputs sha256 valid name version license arch summary dc calls s hnew hcalls hrun now hnow payload archive hdig hmem ?_
+  have hsha : ∀ b, (Sign.shaHex sha256 b).length ≤ 64 := fun b => by
+    have := Build.hexLower_length (sha256 b); have := hdig b
+    show (Digest.hexLower (sha256 b)).length ≤ 64
+    omega
+  have hw := run_weight hsha hrun
+  obtain ⟨hf, hd⟩ := run_base_nofiles hrun
+  rw [cfgWeight_cfg s (by rw [hf]; rfl) (by rw [hd]; rfl)]
+  rw [stWeight_new] at hw
+  omega
+
+/-! ### non-vacuity -/
+section
+open RpmVerif.WithFile RpmVerif.Utf8
+
+/-- "ü" (two bytes) and "日" (three bytes) are Rust strings; a string with a NUL is not -/
+theorem rustStr_samples : RustStr [195, 188] ∧ RustStr [230, 151, 165, 47, 102] ∧ ¬ RustStr [97, 0, 98] := by
+  refine ⟨⟨by decide, Valid.cons (c := [195, 188]) ⟨by decide, by decide⟩ .nil⟩,
+    ⟨by decide, Valid.cons (c := [230, 151, 165]) ⟨by decide, by decide, by decide⟩ (valid_ascii [47, 102] (by decide))⟩, fun h => h.1 (by decide)⟩
+
+/-- calls of every kind with non-ASCII arguments: a repeated setter, a typed source date, scriptlets, dependencies, two files -/
+def inputCalls : List Build.Call :=
+  [.set (.url [195, 188]), .set (.url [104]), .set (.epoch 4294967295), .sourceDate (.src (.sys ⟨1600000000, 5, by decide⟩)),
+   .set (.script 0 (Bld.Scriptlet.new [195, 188])), .set (.dep 1 ⟨[119], 8, [49]⟩), .set (.changelog [109] [195, 188] 7),
+   .file ⟨.readable ⟨[1, 2, 3], 0o104755, ⟨1500000000, 0, by decide⟩⟩, [47, 195, 188, 47, 102], [.user [195, 188], .flag 0]⟩,
+   .file ⟨.readable ⟨[], 0o100644, ⟨0, 0, by decide⟩⟩, [46, 47, 97], []⟩]
+
+-- the hypotheses of `valid_of_inputs` hold for them: the arguments …
+example : ∀ c ∈ inputCalls, c.ArgsOk := by
+  have hu := rustStr_samples.1
+  intro c hc
+  simp only [inputCalls, List.mem_cons, List.not_mem_nil, or_false] at hc
+  rcases hc with rfl | rfl | rfl | rfl | rfl | rfl | rfl | rfl | rfl
+  · exact hu
+  · exact rustStr_ascii [104] (by decide)
+  · show (4294967295 : Nat) < 4294967296; decide
+  · trivial
+  · exact ⟨hu, (fun _ h => nomatch h), (fun _ h => nomatch h)⟩
+  · exact ⟨rustStr_ascii [119] (by decide), rustStr_ascii [49] (by decide), by decide⟩
+  · exact ⟨rustStr_ascii [109] (by decide), hu, by decide⟩
+  · refine ⟨⟨by decide, Valid.cons (c := [47]) (show (47 : UInt8) < 0x80 by decide) (Valid.cons (c := [195, 188]) ⟨by decide, by decide⟩ (valid_ascii [47, 102] (by decide)))⟩, ?_⟩
+    intro st hst
+    simp only [List.mem_cons, List.not_mem_nil, or_false] at hst
+    rcases hst with rfl | rfl
+    · exact hu
+    · trivial
+  · exact ⟨rustStr_ascii [46, 47, 97] (by decide), fun _ h => nomatch h⟩
+-- … the call sequence succeeds, its contents are small and so is its weight
+example : ((run (Sign.shaHex (fun _ => List.replicate 32 7)) (fun _ => true) inputCalls (St.new [195, 188] [49] [77] [120] [115] .none)).toOption.map
+    fun s => (decide ((s.fes.map (·.2.length)).sum < 18446744073709551616), decide (cfgWeight s.cfg < 10500000), s.fes.length, s.dirs)) =
+    some (true, true, 2, [[47], [47, 195, 188, 47]]) := by decide +kernel
+-- … and so is what the caller wrote (`valid_of_args`)
+example : strW [195, 188] + strW [49] + strW [77] + strW [120] + strW [115] + 2 + (inputCalls.map Build.Call.weight).sum < 10500000 := by decide +kernel
+-- the NUL condition is needed: a name with a NUL gives a record that does not survive encode → decode
+example : ¬ Valid ⟨Cfg.new [97, 0, 98] [49] [] [] [] .none, 0, [], []⟩ := fun v => by
+  have : ¬ ∀ r ∈ recordsOf ⟨Cfg.new [97, 0, 98] [49] [] [] [] .none, 0, [], []⟩, r.2.Canon := by decide +kernel
+  exact this v.canon
+-- the setter theorems on a concrete chain: the second `url` wins, the dependency lists keep call order
+example : ((Cfg.new [112] [49] [] [] [] .none).applyAll [.url [97], .dep 1 ⟨[120], 0, []⟩, .url [98], .dep 1 ⟨[121], 0, []⟩, .release [50]]).url = some [98] ∧
+    ((Cfg.new [112] [49] [] [] [] .none).applyAll [.url [97], .dep 1 ⟨[120], 0, []⟩, .url [98], .dep 1 ⟨[121], 0, []⟩, .release [50]]).requires =
+      [⟨[120], 0, []⟩, ⟨[121], 0, []⟩] ∧
+    ((Cfg.new [112] [49] [] [] [] .none).applyAll [.url [97], .release [50]]).release = [50] ∧
+    (Cfg.new [112] [49] [] [] [] .none).release = [49] := by decide
+end
+
+end calls
 
 end RpmVerif.C06
